@@ -111,6 +111,11 @@ class DiagramExecutor:
                 raise WiringError(
                     f"Multiple sources for input port: {module_name}.{port_name}"
                 )
+            if port_name in module_inputs.get(module_name, ()):
+                raise WiringError(
+                    "Multiple sources for input port (wire and external input): "
+                    f"{module_name}.{port_name}"
+                )
 
         for module_name, spec in self.diagram.modules.items():
             if spec.outputs and module_name not in self._handlers:
